@@ -20,7 +20,10 @@ which the Go runtime wakes the waiters, a call that would block is only *admitte
 probe when (1) it would run to completion once that one mutex is released, (2) no pending write
 waits on the same mutex and, if it is a write itself, nothing else waits there; otherwise the
 result is `skip` and nothing happens (the Go side skips it too).  While probes are pending new
-`lock`/`llock` requests are skipped.  A blocked `lock` probe stands for `LockData(); Commit()`.
+`lock`/`llock` requests are skipped, and so is (3) the `commit` of a locker on whose own mutex probes
+are pending (it would turn their hits into misses: `Commit` sets `data = nil`).  Should a resumed
+probe block a second time all the same, the rest of the case is skipped (`tainted`): the comparison
+never depends on the order in which the Go runtime wakes waiters.  A blocked `lock` probe stands for `LockData(); Commit()`.
 `fatal` (second Commit = unlock of an unlocked RWMutex) is not executed on the Go side.
 -/
 import Goat.Model.DataScope
@@ -41,8 +44,11 @@ structure Sess where
   nextPid : Nat
   /-- generator handle ↦ locker index of the model store -/
   handles : List (Nat × Nat)
+  /-- a resumed probe blocked again: outcomes from here on could depend on wake-up order -/
+  tainted : Bool
 
-def Sess.empty : Sess := { st := { scopes := [], lockers := [] }, pending := [], nextPid := 0, handles := [] }
+def Sess.empty : Sess :=
+  { st := { scopes := [], lockers := [] }, pending := [], nextPid := 0, handles := [], tainted := false }
 
 def Sess.locker (se : Sess) (h : Nat) : Option Nat := (se.handles.find? (fun p => p.1 == h)).map (·.2)
 
@@ -102,6 +108,7 @@ def resume (se : Sess) (m : Mu) : Sess × List String := Id.run do
   let mut st := se.st
   let mut keep : List Pend := []
   let mut out : List String := []
+  let mut tainted := se.tainted
   for p in se.pending do
     if p.mu == m then
       match p.what with
@@ -114,11 +121,16 @@ def resume (se : Sess) (m : Mu) : Sess × List String := Id.run do
           out := out ++ [s!"{p.pid}:{showRes r}"]
         | (st', .inr t') =>
           st := st'
+          tainted := true
           keep := keep ++ [{ p with mu := blockedOn t', what := .task t' w }]
     else keep := keep ++ [p]
-  return ({ se with st := st, pending := keep }, out)
+  return ({ se with st := st, pending := keep, tainted := tainted }, out)
 
 def request (se : Sess) (r : Req) (bind : Option Nat := none) : Sess × String :=
+  if se.tainted then (se, "skip") else
+  if (match r with
+      | .commit l => se.pending.any (fun (p : Pend) => p.mu == Mu.locker l)
+      | _ => false) then (se, "skip") else
   match run se.st (.req r) with
   | (st', .inl res) =>
     if isLockReq r && !se.pending.isEmpty && (match res with | .locker _ => true | _ => false) then (se, "skip")
@@ -146,7 +158,7 @@ def request (se : Sess) (r : Req) (bind : Option Nat := none) : Sess × String :
     if !wouldFinish || sameHasWrite || (w && !same.isEmpty) then (se, "skip")
     else
       let what := if isLockReq r then PTask.lockProbe else PTask.task t w
-      ({ se with pending := se.pending ++ [{ pid := se.nextPid, mu := m, what := what }], nextPid := se.nextPid + 1 },
+      (({ se with pending := se.pending ++ [{ pid := se.nextPid, mu := m, what := what }], nextPid := se.nextPid + 1 } : Sess),
        s!"blocked {se.nextPid}")
 
 def parseVal (s : String) : Option Val :=
@@ -159,12 +171,12 @@ def handle (se : Sess) (line : String) : Sess × String :=
   match line.splitOn " " with
   | ["reset"] => (Sess.empty, "ok")
   | ["root"] =>
-    ({ se with st := { se.st with scopes := newRoot se.st.scopes [] } }, s!"id {se.st.scopes.length}")
+    (({ se with st := { se.st with scopes := newRoot se.st.scopes [] } } : Sess), s!"id {se.st.scopes.length}")
   | ["child", p] =>
     match p.toNat? with
     | some p =>
       if p < se.st.scopes.length then
-        ({ se with st := { se.st with scopes := newChild se.st.scopes p [] } }, s!"id {se.st.scopes.length}")
+        (({ se with st := { se.st with scopes := newChild se.st.scopes p [] } } : Sess), s!"id {se.st.scopes.length}")
       else (se, "bad")
     | none => (se, "bad-op")
   | ["set", s, k, v] =>
